@@ -10,6 +10,7 @@ EXTENDS Naturals, Sequences, FiniteSets, TLC, Json
 CONSTANTS Pipes, MaxMsgs, MaxOps, MaxNow, Ticks, STimes,
           SendCap,         \* per-pipe queue of surveys waiting for the transport (8)
           RecvCap,         \* per-context queue of responses (128)
+          Focus,           \* "all", or "sendq": only sends, connections and the wire (simulation that fills the per-pipe queues)
           FlushOnNew       \* TRUE: a new survey discards the queued responses of the old one (the code); FALSE: mutant for the invariant
 
 Ctxs == {0, 1}
@@ -172,12 +173,16 @@ Advance(d) ==
      IN Apply(EachC(S0, Ctxs), [a |-> "tick", d |-> d, out |-> [done |-> <<>>]])
   /\ UNCHANGED <<up, used, open1, stime, nextMsg, known, answers>>
 
-Next == \/ (\E c \in Ctxs : Send(c, "nb") \/ Send(c, "aio") \/ Recv(c, "nb", 0) \/ Recv(c, "aio", Inf) \/ Recv(c, "aio", 15))
-        \/ (\E k \in 1..MaxOps : Cancel(k)) \/ CtxOpen
-        \/ (\E c \in Ctxs, v \in STimes : SetSTime(c, v))
-        \/ (\E p \in Pipes : Connect(p) \/ Take(p) \/ Lost(p, "close") \/ Lost(p, "short")
-                             \/ \E c \in Ctxs, kd \in {"cur", "old", "unknown", "nobit", "unsent"} : Reply(p, kd, c))
-        \/ (\E d \in Ticks : Advance(d))
+\* Focus = "sendq": surveys piling up behind a respondent that does not read: the per-pipe queue fills (SendCap) and further
+\* surveys are dropped for it
+All == Focus = "all"
+Next == \/ (\E c \in Ctxs : Send(c, "nb") \/ Send(c, "aio"))
+        \/ (All /\ \E c \in Ctxs : Recv(c, "nb", 0) \/ Recv(c, "aio", Inf) \/ Recv(c, "aio", 15))
+        \/ (All /\ \E k \in 1..MaxOps : Cancel(k)) \/ CtxOpen
+        \/ (All /\ \E c \in Ctxs, v \in STimes : SetSTime(c, v))
+        \/ (\E p \in Pipes : Connect(p) \/ ((All \/ p = 1) /\ Take(p)) \/ ((All \/ nextMsg > 118) /\ Lost(p, "close")) \/ (All /\ Lost(p, "short"))
+                             \/ (All /\ \E c \in Ctxs, kd \in {"cur", "old", "unknown", "nobit", "unsent"} : Reply(p, kd, c)))
+        \/ (All /\ \E d \in Ticks : Advance(d))
 Spec == Init /\ [][Next]_vars
 
 \* ---------------------------------------------------------------- properties
